@@ -757,8 +757,10 @@ def mut_position(r, m):
             bad = ("enum", "Eb", "XX") if "Eb" in env.enums else bad
     else:
         bad = wrong_for(r, s["ty"], env, opq)
-    line = s["line"]
-    info = _apply(m, s, bad, "position:" + s["pos"])
+    rule = "position:" + s["pos"]
+    if s["pos"] == "enum-value":
+        rule += ":enum" if bad[0] == "enum" else ":bool"
+    info = _apply(m, s, bad, rule)
     # arrays: size and length slots of the same line both hold the expression; mutate only this slot
     return info
 
